@@ -24,9 +24,9 @@ func init() { fw.Register(&c38{Base: Base{Id: "C38", Lvl: "exploration"}}) }
 func (p *c38) Setup(env *fw.Env) error {
 	p.Env = env
 	p.N = env.Pick(30000, 1200000)
-	p.RuleS = "(a) random sequences of 1..6 messages — calls with int64 ids (0, negatives, ±2^53 neighbourhood, MaxInt64) and string ids (incl. \"\"), notifications, responses with result / wire error (with data) / wrapped wire error / plain error / neither — with random JSON params/results (nested objects, arrays, unicode and HTML-sensitive strings, big numbers), written with HeaderFramer().Writer and read back through a reader that delivers 1..n bytes per Read; (b) hostile streams: one frame of a valid stream is damaged (header case/spacing, extra/duplicate headers, missing/zero/negative/huge/non-numeric/overflowing Content-Length, truncated body, garbage JSON of the declared length, a valid object followed by trailing bytes inside the declared length, Content-Length overstated by the size of the next frame, wrong version, id of wrong type, shorter/longer declared length) and followed by a well-formed frame. Oracle: same messages in order with per-message byte totals; no panic; when the damaged frame's header is well-formed the next Read returns the following frame intact. Non-trivial = >=2 messages or a hostile frame; distinct by stream bytes."
+	p.RuleS = "(a) random sequences of 1..6 messages — calls with int64 ids (0, negatives, ±2^53 neighbourhood, MaxInt64) and string ids (incl. \"\"), notifications, responses with result / wire error (with data) / wrapped wire error / plain error / neither — with random JSON params/results (nested objects, arrays, unicode and HTML-sensitive strings, big numbers), written with HeaderFramer().Writer and read back through a reader that delivers 1..n bytes per Read; (b) hostile streams: one frame of a valid stream is damaged (header case/spacing, extra/duplicate headers, missing/zero/negative/huge/non-numeric/overflowing Content-Length, truncated body, garbage JSON of the declared length, a valid object followed by trailing bytes inside the declared length, Content-Length overstated by the size of the next frame, wrong version, id of wrong type, shorter/longer declared length) and followed by a well-formed frame. (c) relay: 1..4 hand-framed messages (calls, notifications, results, error responses with and without data) are read from the wire and written again; each written body must be the same JSON value. Oracle: same messages in order with per-message byte totals; no panic; when the damaged frame's header is well-formed the next Read returns the following frame intact. Non-trivial = >=2 messages or a hostile frame; distinct by stream bytes."
 	p.Assume = []string{"params/results are compared as JSON values (json.Marshal legitimately compacts and HTML-escapes raw messages)", "methods are non-empty valid UTF-8; top-level params/results are never the JSON literal null"}
-	p.Floor = map[string]int{"#evaluations": p.N / 2, "#nontrivial": 5000, "msg:call-int": 2000, "msg:call-string": 1000, "msg:notification": 1000, "msg:response-result": 1000, "msg:response-wire-error": 500, "msg:response-wrapped-error": 300, "msg:response-plain-error": 300, "msg:response-empty": 200,
+	p.Floor = map[string]int{"#evaluations": p.N / 2, "#nontrivial": 5000, "relay:messages-compared": 3000, "relay:error-with-data": 500, "msg:call-int": 2000, "msg:call-string": 1000, "msg:notification": 1000, "msg:response-result": 1000, "msg:response-wire-error": 500, "msg:response-wrapped-error": 300, "msg:response-plain-error": 300, "msg:response-empty": 200,
 		"hostile:error-returned": 2000, "hostile:next-frame-intact": 1000, "hostile:message-returned": 100, "chunked-reader": 5000}
 	return nil
 }
@@ -342,6 +342,7 @@ func (p *c38) Run(c fw.Case, r *fw.Rec) {
 				r.Sample(fw.Quote(data, 300))
 			}
 		}
+		p.relay(rnd, r)
 		return
 	}
 	// hostile: damage frame k, keep the others
@@ -494,4 +495,104 @@ func (p *c38) Run(c fw.Case, r *fw.Rec) {
 		r.Cover("hostile:next-frame-intact")
 	}
 	_ = strings.TrimSpace
+}
+
+// relay: messages that arrive from the wire (hand-framed bodies, so that they can carry what the constructors
+// cannot build: error responses with data) are written again by the framer; the bodies it writes must be the same
+// JSON values, message by message.
+func (p *c38) relay(rnd *fw.Rand, r *fw.Rec) {
+	ctx := context.Background()
+	n := rnd.Range(1, 4)
+	var bodies [][]byte
+	var in bytes.Buffer
+	for k := 0; k < n; k++ {
+		obj := map[string]any{"jsonrpc": "2.0"}
+		id := func() any {
+			if rnd.Bool() {
+				return fw.Pick(rnd, []string{"a", "id-é", "x7"})
+			}
+			return float64(rnd.Intn(1000))
+		}
+		val := func() any {
+			for {
+				if v := c38Value(rnd, 0); v != nil {
+					return v
+				}
+			}
+		}
+		switch rnd.Intn(5) {
+		case 0:
+			obj["id"], obj["method"], obj["params"] = id(), "m", val()
+			r.Cover("relay:call")
+		case 1:
+			obj["method"], obj["params"] = "n", val()
+			r.Cover("relay:notification")
+		case 2:
+			obj["id"], obj["result"] = id(), val()
+			r.Cover("relay:result")
+		default:
+			e := map[string]any{"code": float64(fw.Pick(rnd, []int64{-32700, -32000, 0, 1, 7})), "message": fw.Pick(rnd, []string{"boom", "", "overloaded"})}
+			if rnd.Chance(2, 3) {
+				e["data"] = val()
+				r.Cover("relay:error-with-data")
+			} else {
+				r.Cover("relay:error-without-data")
+			}
+			obj["id"], obj["error"] = id(), e
+		}
+		body, err := json.Marshal(obj)
+		if err != nil {
+			r.Skip("unmarshalable-value")
+			return
+		}
+		bodies = append(bodies, body)
+		fmt.Fprintf(&in, "Content-Length: %d\r\n\r\n%s", len(body), body)
+	}
+	rd := jsonrpc2.HeaderFramer().Reader(bytes.NewReader(in.Bytes()))
+	var out bytes.Buffer
+	w := jsonrpc2.HeaderFramer().Writer(&out)
+	for k := range bodies {
+		var m jsonrpc2.Message
+		var err error
+		if fw.Guard(r, "HeaderFramer.Read", func() { m, _, err = rd.Read(ctx) }) {
+			return
+		}
+		if err != nil {
+			r.Fail("relay:read-error", "reading hand-framed message #%d (%s) failed: %v", k, bodies[k], err)
+			return
+		}
+		start := out.Len()
+		if fw.Guard(r, "HeaderFramer.Write", func() { _, err = w.Write(ctx, m) }) {
+			return
+		}
+		if err != nil {
+			r.Fail("relay:write-error", "writing message #%d (%s) again failed: %v", k, bodies[k], err)
+			return
+		}
+		frame := out.Bytes()[start:]
+		i := bytes.Index(frame, []byte("\r\n\r\n"))
+		if i < 0 {
+			r.Fail("relay:frame-without-header-end", "frame written for message #%d has no header end: %q", k, frame)
+			return
+		}
+		var a, b any
+		if json.Unmarshal(bodies[k], &a) != nil || json.Unmarshal(frame[i+4:], &b) != nil {
+			r.Fail("relay:body-not-json", "message #%d: written body is not JSON: %q", k, frame[i+4:])
+			return
+		}
+		if !reflect.DeepEqual(a, b) {
+			site := "relay:message-changed"
+			am, _ := a.(map[string]any)
+			bm, _ := b.(map[string]any)
+			for _, key := range []string{"id", "method", "params", "result", "error"} {
+				if !reflect.DeepEqual(am[key], bm[key]) {
+					site += ":" + key
+					break
+				}
+			}
+			r.Fail(site, "message #%d read from the wire and written again differs:\n  in : %s\n  out: %s", k, bodies[k], frame[i+4:])
+			return
+		}
+		r.Cover("relay:messages-compared")
+	}
 }
